@@ -52,6 +52,11 @@ CHECKS = {
             'the real UserDefined.get_examples() decoded strictly and re-encoded by the real serializer',
             'Held on the executions produced, with two open known findings (Bytes / Timestamp defaults emitted '
             'as text).', '4 C10'),
+    'C13': ('runtime monitoring: real serializer output for every permission subset x redaction flag compared with a '
+            'permission/redaction-aware reference encoder, plus a structure-independent search for unique '
+            'sentinel payloads in the output text, plus strict decoding of foreign-permission documents',
+            'Held on the executions produced: no omitted field or clear-text redacted sentinel in any output '
+            'for a caller without the permission, present for callers holding it.', '4 C13'),
 }
 
 PENDING = {}
